@@ -109,19 +109,20 @@ func c14Root() *ggql.Root {
 	return root
 }
 
-func c14AssertSame(before, after *c14Obs, later bool) {
+func c14AssertUnchanged(before, after *c14Obs) {
 	sdl, intro, res, lookup := c14Same(before, after)
-	if later {
-		sym.Assert(sdl, "printed schema after a later valid load as if the failed load never happened")
-		sym.Assert(intro, "introspection after a later valid load as if the failed load never happened")
-		sym.Assert(res, "request responses after a later valid load as if the failed load never happened")
-		sym.Assert(lookup, "type lookups after a later valid load as if the failed load never happened")
-		return
-	}
 	sym.Assert(sdl, "printed schema unchanged by the failed load")
 	sym.Assert(intro, "introspection unchanged by the failed load")
 	sym.Assert(res, "request responses unchanged by the failed load")
 	sym.Assert(lookup, "type lookups unchanged by the failed load")
+}
+
+func c14AssertLater(before, after *c14Obs) {
+	sdl, intro, res, lookup := c14Same(before, after)
+	sym.Assert(sdl, "printed schema after a later valid load as if the failed load never happened")
+	sym.Assert(intro, "introspection after a later valid load as if the failed load never happened")
+	sym.Assert(res, "request responses after a later valid load as if the failed load never happened")
+	sym.Assert(lookup, "type lookups after a later valid load as if the failed load never happened")
 }
 
 // C14_atomic: one failing load.
@@ -177,14 +178,14 @@ func C14_atomic() {
 		return
 	}
 	after := c14Observe(root)
-	c14AssertSame(before, after, false)
+	c14AssertUnchanged(before, after)
 	// a later valid load behaves as on a root that never saw the failing document
 	sym.Assert(root.ParseString(c14Later) == nil, "later valid load accepted")
 	fresh := c14Root()
 	if fresh.ParseString(c14Later) != nil {
 		panic("harness: later document refused by a fresh root")
 	}
-	c14AssertSame(c14Observe(fresh), c14Observe(root), true)
+	c14AssertLater(c14Observe(fresh), c14Observe(root))
 }
 
 // c14Extends reports whether the document extends an existing type before
@@ -212,13 +213,13 @@ func C14_fault() {
 	err := root.ParseReader(&faultReader{data: doc, failAt: at})
 	sym.Assert(err != nil, "the fault surfaces as an error")
 	after := c14Observe(root)
-	c14AssertSame(before, after, false)
+	c14AssertUnchanged(before, after)
 	sym.Assert(root.ParseString(c14Later) == nil, "later valid load accepted")
 	fresh := c14Root()
 	if fresh.ParseString(c14Later) != nil {
 		panic("harness: later document refused by a fresh root")
 	}
-	c14AssertSame(c14Observe(fresh), c14Observe(root), true)
+	c14AssertLater(c14Observe(fresh), c14Observe(root))
 }
 
 // C14_first: failing loads into a root that has no schema yet, then a valid one.
@@ -235,5 +236,5 @@ func C14_first() {
 	err := root.ParseString(doc + fail)
 	sym.Assert(err != nil, "the failing document is refused")
 	sym.Assert(root.ParseString(c14Base) == nil, "later valid load accepted")
-	c14AssertSame(c14Observe(c14Root()), c14Observe(root), true)
+	c14AssertLater(c14Observe(c14Root()), c14Observe(root))
 }
